@@ -1,0 +1,38 @@
+//go:build verif
+// +build verif
+
+// Verification hook H5 (add-only, compiled only with -tags verif): exports the unexported VRF
+// building blocks so that an external harness can act as an adversarial prover. No behaviour
+// of existing code paths changes.
+package ed25519
+
+import "com.tuntun.rangers/node/src/common/ed25519/edwards25519"
+
+// VerifExpandSecret returns the secret scalar x and the truncated hashed secret of sk.
+func VerifExpandSecret(sk PrivateKey) (x *[32]byte, truncatedHashedSK *[32]byte) {
+	return expandSecret(sk)
+}
+
+// VerifHashToCurve is the Elligator2 hash of (pk, m) to a curve point (encoded).
+func VerifHashToCurve(m []byte, pk PublicKey) [32]byte { return hashToCurve(m, pk) }
+
+// VerifHashPoints is the 16-byte challenge hash of four points.
+func VerifHashPoints(p1, p2, p3, p4 edwards25519.ExtendedGroupElement) [16]byte {
+	return hashPoints(p1, p2, p3, p4)
+}
+
+// VerifNonce is the deterministic nonce of the honest prover.
+func VerifNonce(truncatedHashedSK [32]byte, h [32]byte) *[32]byte {
+	return vrfNonceGeneration(truncatedHashedSK, h)
+}
+
+// VerifStringToPoint is the point decoder used by the verifier for Gamma.
+func VerifStringToPoint(point *edwards25519.ExtendedGroupElement, s [32]byte) bool {
+	return stringToPoint(point, s)
+}
+
+// VerifIsCanonical exposes the canonical-encoding predicate used by stringToPoint.
+func VerifIsCanonical(s [32]byte) byte { return isCanonical(s) }
+
+// VerifTryZeroPadding is the left-padding applied by ECVRFVerify.
+func VerifTryZeroPadding(pi VRFProve) VRFProve { return tryZeroPadding(pi) }
